@@ -839,6 +839,48 @@ def rule_r12(F):
     return r
 
 
+def rule_r13(F):
+    """A module that exists on disk is part of the tree or compilation fails: while a package directory is discovered, the result of
+    reading a file (`SourceFile::read`) decides the outcome - when the read fails, no path from there ends the discovery with
+    success.  (`let Ok(file) = SourceFile::read(&path) else { return Ok(()) }` leaves out a `name/mod.roto` that is unreadable or
+    not UTF-8 together with everything below it; `name` is then looked up further out and can silently refer to another item.)"""
+    r = RuleResult("C13.R13", "module discovery: a failed read of a source file never ends in success (no module is silently left out of the tree)", floor=3)
+    n = 0
+    for b in F.bodies_in(["src/file_tree.rs"]):
+        if not b.mir or "::tests::" in b.path or "{closure" in b.path:
+            continue
+        defs = mir.Defs(b)
+        gs = None
+        oks = set(mir.ok_exits(b, "Ok"))
+        for bi, t in mir.calls(b):
+            c = mir.callee(t) or ""
+            if not (c.endswith("SourceFile::read") or c.endswith("SourceFile::read_internal")):
+                continue
+            if not str(b.mir["locals"][0].get("ty") or "").startswith("std::result::Result<"):
+                continue
+            n += 1
+            gs = gs if gs is not None else mir.gates(b, defs)
+            mine = [g for g in gs if any(ch[0] == bi for ch in g["chain"])]
+            swallowed = None
+            returned = t.get("dest") == [0] or any(d[2] == "assign" and d[3]["rv"]["k"] == "use" and mir.is_place_op(d[3]["rv"]["o"]) and d[3]["rv"]["o"][1] == t.get("dest") for d in defs.defs.get(0, []))
+            returned = returned or bi in mir.back_calls(b, defs, 0)     # handed on as (part of) this function's own result
+            if not mine and not returned:
+                swallowed = "its result is never tested"
+            for g in mine:
+                for x in g["bad"]:
+                    reach = mir.reachable_from(b, x, stop={g["bb"]}) | {x}
+                    if reach & oks:
+                        swallowed = "the failing side of the test on its result can end with Ok"
+            r.inst("%s reads a source file #%d" % (hir.last(b.path), n), {"fn": b.path, "line": t.get("line"), "failure_can_end_in_success": swallowed is not None})
+            if swallowed:
+                r.bad(b.path, "read failure swallowed", relfile(b.file), t.get("line") or b.line,
+                      "%s reads a source file and %s: an unreadable module file (and every module below it) is silently left out of the tree, and names that should have referred to it "
+                      "resolve to whatever is visible further out" % (hir.last(b.path), swallowed))
+    if n == 0:
+        r.missing("SourceFile::read calls in src/file_tree.rs")
+    return r
+
+
 def rules(ctx):
     F = ctx["F"]
-    return [rule_r1(F), rule_r2(F), rule_r3(F), rule_r4(F), rule_r5(F), rule_r6(F), rule_r7(F), rule_r8(F), rule_r9(F), rule_r10(F), rule_r11(F), rule_r12(F)]
+    return [rule_r1(F), rule_r2(F), rule_r3(F), rule_r4(F), rule_r5(F), rule_r6(F), rule_r7(F), rule_r8(F), rule_r9(F), rule_r10(F), rule_r11(F), rule_r12(F), rule_r13(F)]
